@@ -2236,7 +2236,8 @@ def negative_mark_script(rng):
     of which quotes a held asset negative on one day; optionally another held asset the handler has no data for."""
     return {'sources': rng.choice([1, 2, 2]), 'second_has_asset': rng.random() < 0.6, 'nodata_first': rng.random() < 0.5,
             'nodata_held': rng.random() < 0.5, 'qty': rng.randint(1, 300), 'price': float(rng.randint(5, 400)),
-            'neg': -float(rng.choice([0.5, 3, 120])), 'tod': rng.choice(['15:00', '21:00', '09:00'])}
+            'neg': -float(rng.choice([0.5, 3, 120])), 'tod': rng.choice(['15:00', '21:00', '09:00']),
+            'zero_mv': rng.random() < 0.3}
 
 
 def negative_mark_case(sp, acc):
@@ -2258,6 +2259,8 @@ def negative_mark_case(sp, acc):
         rows1 = [{'date': d, 'open': (sp['neg'] if d == bad else p + i), 'close': (sp['neg'] if d == bad else p + i + 0.5),
                   'adj': (sp['neg'] if d == bad else p + i + 0.5)} for i, d in enumerate(days)]
         datawl.write_csv(os.path.join(d1, 'XXX.csv'), rows1, list(range(len(rows1))))
+        datawl.write_csv(os.path.join(d1, 'WWW.csv'), [{'date': d, 'open': p + i, 'close': p + i + 0.5, 'adj': p + i + 0.5}
+                                                       for i, d in enumerate(days)], list(range(len(days))))
         datawl.write_csv(os.path.join(d1, 'YYY.csv'), [{'date': d, 'open': 40.0 + i, 'close': 41.0 + i, 'adj': 41.0 + i}
                                                        for i, d in enumerate(days)], list(range(len(days))))
         other = 'XXX' if sp['second_has_asset'] else 'ZZZ'
@@ -2272,13 +2275,20 @@ def negative_mark_case(sp, acc):
         b.create_portfolio('p')
         b.subscribe_funds_to_portfolio('p', 5e7)
         pf = b.portfolios['p']
-        if sp['nodata_held'] and sp['nodata_first']:
-            pf.transact_asset(Transaction('EQ:NODATA', 10, t0, 7.0, 'n1', commission=0.0))
-        b.submit_order('p', Order(t0, 'EQ:YYY', 5))
-        b.submit_order('p', Order(t0, 'EQ:XXX', sp['qty']))
-        b.update(t0)
-        if sp['nodata_held'] and not sp['nodata_first']:
-            pf.transact_asset(Transaction('EQ:NODATA', 10, t0, 7.0, 'n1', commission=0.0))
+        if sp.get('zero_mv'):
+            # a market-neutral book: short q of one asset and long q of another at the same price - its market value is 0.0
+            b.submit_order('p', Order(t0, 'EQ:WWW', -sp['qty']))
+            b.submit_order('p', Order(t0, 'EQ:XXX', sp['qty']))
+            b.update(t0)
+            acc.count('C15:negative_marks_on_a_book_with_zero_market_value')
+        else:
+            if sp['nodata_held'] and sp['nodata_first']:
+                pf.transact_asset(Transaction('EQ:NODATA', 10, t0, 7.0, 'n1', commission=0.0))
+            b.submit_order('p', Order(t0, 'EQ:YYY', 5))
+            b.submit_order('p', Order(t0, 'EQ:XXX', sp['qty']))
+            b.update(t0)
+            if sp['nodata_held'] and not sp['nodata_first']:
+                pf.transact_asset(Transaction('EQ:NODATA', 10, t0, 7.0, 'n1', commission=0.0))
         t1 = ts(bad + ' ' + sp['tod'] + ':00')
         if t1.hour < 14:
             t1 = ts(bad + ' 15:30:00')            # the negative bar is in force from its open
